@@ -57,7 +57,7 @@ pub fn parse_args() -> Args {
     let mut a = Args {
         tier: "quick".into(),
         seed: 1,
-        out: PathBuf::from("/verif/.cache/run"),
+        out: PathBuf::from(".cache/run"),
         replay: None,
         extra: vec![],
     };
